@@ -105,6 +105,13 @@ func checkRing(p [2]int64, ring [][2]int64, l geom.Layout, what string) error {
 	}
 	// the same backing array refilled with another ring (the ring moved clear of its
 	// old envelope) and queried again: nothing may be remembered about the array
+	// (asked twice more first: what is remembered may only be used from the second or
+	// third time on)
+	for i := 0; i < 2; i++ {
+		if got := xy.LocatePointInRing(l, pc, flat); got != want {
+			return fmt.Errorf("%s: LocatePointInRing asked again = %v, exact %v", what, got, want)
+		}
+	}
 	lo, hi := ring[0], ring[0]
 	for _, q := range ring {
 		lo = [2]int64{min(lo[0], q[0]), min(lo[1], q[1])}
